@@ -1,11 +1,12 @@
 """C06 - the parser accepts every sentence of the grammar (grammar side: strong LL(1) for the
 greedy engine, terminal producibility)."""
-from ..rules import gr, rxr
+from ..rules import gr, rxr, par
 
 
 def check(ctx, rep):
     gr.gr_1_4(ctx, rep, with_follow=True)
     gr.gr_5(ctx, rep)
     rxr.rx_7_8(ctx, rep)      # named terminals: every NUMBER / operator spelling CPython accepts is one token
+    par.par_11(ctx, rep)      # the reserved-word lookup is keyed by the token text itself
     rep.assume('parso/pgen2/generator.py builds the tables the grammar text describes (see C08 for its structural part)')
     rep.note('Not decided: equality of the returned tree with the derivation (run-time behaviour of the engine).')
